@@ -666,7 +666,7 @@ def apply_ops(dom, inj):
     def ok_form(x, top=True):
         if isinstance(x, str):
             if x.startswith("?"):
-                return x in params or x in ("?z", "?w", "?nosuchvar")
+                return x in params or x in ("?z", "?w", "?xz", "?yw", "?nosuchvar")
             return x in KEYWORDS or x in consts or x in tnames or pddl.is_number(x) or x == "-" or x in names
         return all(ok_form(y, False) for y in x)
     for op in ops:
